@@ -141,7 +141,12 @@ class CCodeMapper(SimplifyingSortingStringifyMapper):
             if is_zero(expr.exponent):
                 return "1"
             elif is_zero(expr.exponent - 1):
-                return self.rec(expr.base, enclosing_prec)
+                from pymbolic.mapper.stringifier import PREC_POWER, PREC_PRODUCT
+                # the power node hides a multiplicative base from the forced
+                # parentheses of an enclosing *, /, %: a % (b % c)
+                return self.rec(expr.base,
+                        PREC_POWER if enclosing_prec >= PREC_PRODUCT
+                        else enclosing_prec)
             elif is_zero(expr.exponent - 2):
                 from pymbolic.mapper.stringifier import PREC_POWER, PREC_PRODUCT
                 # base*base is a product: under another multiplicative
